@@ -209,7 +209,10 @@ def gen_random(rng):
     for _ in range(12):
         combos.append((rng.randint(0, 6), rng.choice([None, 0, 1, 2, 3, 4, 5, 6, 40, 2 ** 64 - 1, 2 ** 63]), rng.choice(MODES)))
     unit = {"kind": "random", "input": records.to_input(recs, rng), "args": args, "combos": combos, "groupkey": groupkey}
-    if rng.random() < 0.3:
+    if rng.random() < 0.1 and not permuted:
+        # what a row knows about its place in the input is a sort key like any other (it restarts with every file)
+        args = [a for a in args] + ["--sort-by", rng.choice(["&index-in-file", "&index-in-file=DESC", "&index DESC", "(% &index 3)", "&index-in-file asc"])]
+    if rng.random() < 0.3 or "&index-in-file" in " ".join(args):
         texts = [jm.dumps(r).encode() for r in recs]
         nf = rng.choice((1, 2, 2, 3))
         cuts = sorted(rng.randint(0, len(texts)) for _ in range(nf - 1))
